@@ -248,6 +248,15 @@ Lemma ptrkey_refuted :
   r1 <> r2.
 Proof. vm_compute. discriminate. Qed.
 
+(** what the second look of LoadOrStore is for: with a miss path that stores without looking again (a map behind an
+    RWMutex, read lock for the lookup, write lock for the insertion), two first lookups of one pair that both miss
+    before either stores are handed two paths, and only the later one is ever returned again *)
+Lemma unchecked_store_refuted :
+  let k := (0x100000801, 7) in
+  let s := frun_unchecked (finit [k; k; k]) [0; 1; 0; 1; 2]%nat in
+  f_thr s = [FDone k (next0 + 1); FDone k (next0 + 2); FDone k (next0 + 2)].
+Proof. vm_compute. reflexivity. Qed.
+
 (** * the uint64 counter: coincides with the unbounded one below the bound *)
 Lemma inc64_small n : n + 1 < two64 -> inc64 n = n + 1.
 Proof. intros H. unfold inc64. now apply N.mod_small. Qed.
